@@ -12,6 +12,7 @@ CONSTANTS
   MaxBlockWeight = 250
   MineWeight = 250
   FeeFirst = TRUE
+  StemRecheck = "always"
   FeeOnRemainder = TRUE
   EvictMode = "nodeps"
   ReconcileMature = TRUE
